@@ -2322,16 +2322,21 @@ def get_data_into(
     contact_efc_address = d.contact.efc_address.numpy()[ncon_filter]
 
     efc_idx_c = []
-    contact_efc_address_ordered = [ne + nf + nl]
+    contact_efc_address_ordered = []
+    efc_address = ne + nf + nl
     for i in range(ncon):
+      # contacts without constraint rows (in the gap, excluded) keep address -1
+      if contact_efc_address[i, 0] < 0:
+        contact_efc_address_ordered.append(-1)
+        continue
       dim = contact_dim[i]
       if mjm.opt.cone == mujoco.mjtCone.mjCONE_PYRAMIDAL:
         ndim = np.maximum(1, 2 * (dim - 1))
       else:
         ndim = dim
       efc_idx_c.append(contact_efc_address[i, :ndim])
-      if i < ncon - 1:
-        contact_efc_address_ordered.append(contact_efc_address_ordered[-1] + ndim)
+      contact_efc_address_ordered.append(efc_address)
+      efc_address += ndim
     efc_idx = np.concatenate((efc_idx_efl, *efc_idx_c))
     contact_efc_address_ordered = np.array(contact_efc_address_ordered)
   else:
